@@ -10,6 +10,7 @@ the same tree.  That the differ's scripts are accepted is decided per run by the
 replay of the real script (harness) and, at model level, by `Props/Replay.lean`.
 -/
 import XmlDiffModel.Proofs.Patch
+import XmlDiffModel.Proofs.Replay
 
 namespace XmlDiffModel
 
@@ -21,17 +22,38 @@ theorem C05_strict_step_refines (qn : QName) (s s' : PState) (a : Action)
     (h : applyStrict qn s a = .ok s') : applyShipped qn s a = .ok s' :=
   shipped_of_strict qn s s' a h
 
+/-- Attribute clauses of C05 at the level of one node: the actions `update_node_attr` emits
+are applicable in order to the node's attribute mapping - UpdateAttrib and DeleteAttrib find
+their attribute, InsertAttrib and the new name of RenameAttrib do not (`attrRun` is `none`
+as soon as one `assert` of patch.py would fail). -/
+theorem C05_attribute_actions_applicable (ign : List Str) (path : Path) (las ras : Attrs)
+    (out : List Action) (hr : (keys ras).Nodup) :
+    ∃ acts, (updateAttrs ign path las ras out).2 = acts.reverse ++ out ∧
+      attrRun las acts = some (updateAttrs ign path las ras out).1 := by
+  obtain ⟨acts, h⟩ := updateAttrs_phase ign path las ras out hr
+  exact ⟨acts, h.out_eq, h.run⟩
+
+/-- Script level: for every matching, the shipped patcher (with unique addressing) accepts
+the whole script of the differ - none of its `assert`s fails, `del` never raises. -/
+theorem C05_shipped_accepts_script (qn : QName) (cfg : Cfg) (L R : Tree) (M : List (Nat × Nat))
+    (fresh : Nat) (script : List Action) (final : Tree) (hL : L.WF)
+    (hf : ∀ i ∈ Tree.ids L, i < fresh)
+    (hR : ∀ x ∈ Tree.bfs R, (keys x.payload.attrs).Nodup)
+    (h : scriptGen qn cfg L R M fresh = .ok (script, final)) :
+    ∃ nx, runUniq qn ⟨L, fresh⟩ script = .ok ⟨final, nx⟩ :=
+  (scriptGen_replay qn cfg L R M fresh script final hL hf hR h).1
+
 /-- The strict semantics rejects what the property forbids: deleting a node with children. -/
 example :
     let t : Tree := .node 0 (elemPayload "a".toList) [.node 1 (elemPayload "b".toList) [.node 2 (elemPayload "c".toList) []]]
-    (match applyStrict QName.plain ⟨t, 9⟩ (.deleteNode "/a/b[1]".toList) with
+    (match applyStrict QName.plain ⟨t, 9⟩ (.deleteNode [⟨.name "a".toList, none⟩, ⟨.name "b".toList, some 1⟩]) with
       | .error e => some e | .ok _ => none) = some Err.notLeaf := by
   decide
 
 /-- ... and accepts a well-formed move (hypothesis of the theorem is satisfiable). -/
 example :
     let t : Tree := .node 0 (elemPayload "a".toList) [.node 1 (elemPayload "b".toList) [], .node 2 (elemPayload "c".toList) []]
-    (match applyStrict QName.plain ⟨t, 9⟩ (.moveNode "/a/b[1]".toList "/a/c[1]".toList 0) with
+    (match applyStrict QName.plain ⟨t, 9⟩ (.moveNode [⟨.name "a".toList, none⟩, ⟨.name "b".toList, some 1⟩] [⟨.name "a".toList, none⟩, ⟨.name "c".toList, some 1⟩] 0) with
       | .error _ => false | .ok _ => true) = true := by
   decide
 
